@@ -250,3 +250,7 @@ func (c *Census) CellStorers(a *ssa.Alloc) []*ssa.Function {
 
 // GlobalStored: the package variable is assigned outside init.
 func (c *Census) GlobalStored(g *ssa.Global) bool { return len(c.gstores[g]) > 0 }
+
+// Escaped: the address of the local is used as an ordinary value somewhere
+// (passed to a call, stored, converted): anything may write it.
+func (c *Census) Escaped(a *ssa.Alloc) bool { return c.escaped[a] }
